@@ -128,13 +128,14 @@ Definition attr_ok (indef : bool) (p : policy) (x d : vec) : Prop :=
   | PParent _ => True
   | PZeroDef => if indef then existsb (fun a => negb (eqb a zero)) x = false -> d = x else True
   | PConst c => if indef then True else same x c = true -> d = x
+  | PExact => True
   end.
 
 Lemma read_write_one : forall (indef : bool) (p : policy) (x d : vec),
   length x = length d -> all_defined defined x = true -> attr_ok indef p x d ->
   read_attr d (write_one indef p x d) = x.
 Proof.
-  intros indef p x d Hl Hd Hok. destruct p as [t| |c]; simpl in *.
+  intros indef p x d Hl Hd Hok. destruct p as [t| |c|]; simpl in *.
   - now apply read_write_attr.
   - destruct indef.
     + destruct (existsb _ x) eqn:E; [now apply read_write_raw | simpl; now apply Hok].
@@ -143,6 +144,7 @@ Proof.
     unfold XmlDefaults.write_attr. rewrite Hd. simpl.
     destruct (same x c) eqn:Es; [simpl; now apply Hok|].
     rewrite nonempty_read. rewrite (skipn_all_len x d Hl). apply app_nil_r.
+  - destruct (differs eqb x d) eqn:E; [now apply read_write_raw | simpl; symmetry; now apply differs_false].
 Qed.
 
 Inductive rec_ok (indef : bool) : list policy -> list vec -> list vec -> Prop :=
